@@ -2,6 +2,7 @@
 import os
 import random
 import uuid
+from collections import OrderedDict
 
 import nixio
 from nixio.exceptions import DuplicateName
@@ -120,8 +121,8 @@ def correspondence(ctx):
 class Track:
     """expected content of one container: creation-ordered (name, id) of what was created and not deleted"""
 
-    def __init__(self, label, getter, creator):
-        self.label, self.getter, self.creator = label, getter, creator
+    def __init__(self, label, getter, creator, parent=None):
+        self.label, self.getter, self.creator, self.parent = label, getter, creator, parent
         self.items = []
 
 
@@ -203,192 +204,366 @@ def _check_container(tr, fails, history, cached=False):
                              "no exception", tr.label))
 
 
-def _scenario(ctx, rng, steps, tag):
-    """create/delete in every container kind with an independent bookkeeping of the expected order"""
-    path = ctx.tmpfile("c03-oracle-%s.nix" % tag)
-    f = nixio.File.open(path, nixio.FileMode.Overwrite)
-    fails = []
-    log = []
-    all_ids = {}
+FRAME_COLS = (("a", int), ("b", float))
 
-    def history():
-        return list(log)
 
-    try:
+def _new_frame(blk, n, variant):
+    """create_data_frame in its three ordinary call forms"""
+    if variant == 0:
+        return blk.create_data_frame(n, "t", col_dict=OrderedDict(FRAME_COLS))
+    if variant == 1:
+        return blk.create_data_frame(n, "t", col_names=["a", "b"], col_dtypes=[int, float], data=[(1, 2.0), (3, 4.0)])
+    return blk.create_data_frame(n, "t", col_dict=OrderedDict(FRAME_COLS), data=[(5, 6.0)])
+
+
+class Scene:
+    """one file with every kind of owning container, and the independent bookkeeping of what each must hold"""
+
+    def __init__(self, ctx, rng, tag):
+        self.rng = rng
+        self.path = ctx.tmpfile("c03-oracle-%s.nix" % tag)
+        self.f = nixio.File.open(self.path, nixio.FileMode.Overwrite)
+        self.fails, self.log, self.all_ids = [], [], {}
+        f = self.f
         b = f.create_block("blk", "t")
         s = f.create_section("sec", "t")
         s2 = s.create_section("sub", "t")
         src = b.create_source("src", "t")
         src2 = src.create_source("deep", "t")
         da0 = b.create_data_array("pos", "t", data=[1.0])
-        tracks = [
-            Track("file.blocks", lambda: f.blocks, lambda n: f.create_block(n, "t")),
-            Track("file.sections", lambda: f.sections, lambda n: f.create_section(n, "t")),
-            Track("section.sections", lambda: f.sections["sec"].sections, lambda n: f.sections["sec"].create_section(n, "t")),
-            Track("section.sections(depth2)", lambda: f.sections["sec"].sections["sub"].sections,
-                  lambda n: f.sections["sec"].sections["sub"].create_section(n, "t")),
-            Track("section.props", lambda: f.sections["sec"].props, lambda n: f.sections["sec"].create_property(n, 1)),
-            Track("block.groups", lambda: f.blocks["blk"].groups, lambda n: f.blocks["blk"].create_group(n, "t")),
-            Track("block.data_arrays", lambda: f.blocks["blk"].data_arrays,
-                  lambda n: f.blocks["blk"].create_data_array(n, "t", data=[1.0])),
-            Track("block.tags", lambda: f.blocks["blk"].tags, lambda n: f.blocks["blk"].create_tag(n, "t", [0.0])),
-            Track("block.multi_tags", lambda: f.blocks["blk"].multi_tags,
-                  lambda n: f.blocks["blk"].create_multi_tag(n, "t", positions=f.blocks["blk"].data_arrays["pos"])),
-            Track("block.sources", lambda: f.blocks["blk"].sources, lambda n: f.blocks["blk"].create_source(n, "t")),
-            Track("source.sources", lambda: f.blocks["blk"].sources["src"].sources,
-                  lambda n: f.blocks["blk"].sources["src"].create_source(n, "t")),
-            Track("source.sources(depth2)", lambda: f.blocks["blk"].sources["src"].sources["deep"].sources,
-                  lambda n: f.blocks["blk"].sources["src"].sources["deep"].create_source(n, "t")),
+        blk = lambda: self.f.blocks["blk"]          # noqa: E731
+        sec = lambda: self.f.sections["sec"]        # noqa: E731
+        T = Track
+        # (label, parent, getter, creator): tracks with the same parent are the entity kinds of ONE parent
+        self.tracks = [
+            T("file.blocks", lambda: self.f.blocks, lambda n: self.f.create_block(n, "t"), "file"),
+            T("file.sections", lambda: self.f.sections, lambda n: self.f.create_section(n, "t"), "file"),
+            T("section.sections", lambda: sec().sections, lambda n: sec().create_section(n, "t"), "sec"),
+            T("section.sections(depth2)", lambda: sec().sections["sub"].sections,
+              lambda n: sec().sections["sub"].create_section(n, "t"), "sub"),
+            T("section.props", lambda: sec().props, lambda n: sec().create_property(n, 1), "sec"),
+            T("section.props(depth2)", lambda: sec().sections["sub"].props,
+              lambda n: sec().sections["sub"].create_property(n, "v"), "sub"),
+            T("block.groups", lambda: blk().groups, lambda n: blk().create_group(n, "t"), "blk"),
+            T("block.data_arrays", lambda: blk().data_arrays,
+              lambda n: blk().create_data_array(n, "t", data=[1.0]), "blk"),
+            T("block.data_frames", lambda: blk().data_frames,
+              lambda n: _new_frame(blk(), n, self.rng.randrange(3)), "blk"),
+            T("block.tags", lambda: blk().tags, lambda n: blk().create_tag(n, "t", [0.0]), "blk"),
+            T("block.multi_tags", lambda: blk().multi_tags, self._new_multi_tag, "blk"),
+            T("block.sources", lambda: blk().sources, lambda n: blk().create_source(n, "t"), "blk"),
+            T("source.sources", lambda: blk().sources["src"].sources,
+              lambda n: blk().sources["src"].create_source(n, "t"), "src"),
+            T("source.sources(depth2)", lambda: blk().sources["src"].sources["deep"].sources,
+              lambda n: blk().sources["src"].sources["deep"].create_source(n, "t"), "deep"),
         ]
-        tracks[0].items.append((b.name, b.id))
-        tracks[1].items.append((s.name, s.id))
-        tracks[2].items.append((s2.name, s2.id))
-        tracks[9].items.append((src.name, src.id))
-        tracks[10].items.append((src2.name, src2.id))
-        tracks[6].items.append((da0.name, da0.id))
-        protected = {"blk", "sec", "sub", "src", "deep", "pos"}
-        for _ in range(steps):
-            tr = rng.choice(tracks)
-            r = rng.random()
-            names = [n for n, _ in tr.items]
-            if r < 0.6 or not tr.items:
-                nm = rng.choice(NAMES)
-                log.append(["create", tr.label, nm])
-                if nm in names:
-                    before = [(e.name, e.id) for e in tr.getter()]
-                    try:
-                        tr.creator(nm)
-                        fails.append(Failure("second entity under an existing name accepted", history(), "created",
-                                             "DuplicateName", tr.label))
-                    except DuplicateName:
-                        pass
-                    except Exception as ex:
-                        fails.append(Failure("duplicate name refused with %s" % type(ex).__name__, history(),
-                                             type(ex).__name__, "DuplicateName", tr.label))
-                    after = [(e.name, e.id) for e in tr.getter()]
-                    if before != after:
-                        fails.append(Failure("refused duplicate create changed the container", history(), after, before,
-                                             tr.label))
-                else:
-                    try:
-                        e = tr.creator(nm)
-                        if e.name != nm:
-                            fails.append(Failure("created entity has another name", history(), e.name, nm, tr.label))
-                        try:
-                            u = uuid.UUID(e.id)
-                            okid = str(u) == e.id
-                        except ValueError:
-                            okid = False
-                        if not okid:
-                            fails.append(Failure("id is not a well-formed UUID", history(), e.id, "uuid", tr.label))
-                        if e.id in all_ids:
-                            fails.append(Failure("id already used in this file", history(), e.id, "fresh id", tr.label))
-                        all_ids[e.id] = nm
-                        tr.items.append((nm, e.id))
-                    except Exception as ex:
-                        fails.append(Failure("legal name refused with %s: %s" % (type(ex).__name__, ex), history(),
-                                             type(ex).__name__, "created", tr.label))
-            elif r < 0.9:
-                cand = [(n, i) for n, i in tr.items if n not in protected]
-                if not cand:
-                    continue
-                nm, i = rng.choice(cand)
-                how = rng.choice(["name", "id", "pos", "neg", "obj"])
-                pos = tr.items.index((nm, i))
-                log.append(["delete", tr.label, nm, how])
-                try:
-                    cont = tr.getter()
-                    if how == "name":
-                        del cont[nm]
-                    elif how == "id":
-                        del cont[i]
-                    elif how == "pos":
-                        del cont[pos]
-                    elif how == "neg":
-                        del cont[pos - len(tr.items)]
-                    else:
-                        del cont[cont[pos]]
-                    tr.items.remove((nm, i))
-                except Exception as ex:
-                    fails.append(Failure("delete by %s refused with %s" % (how, type(ex).__name__), history(),
-                                         type(ex).__name__, "deleted", tr.label))
-            else:
-                log.append(["reopen"])
-                f.close()
-                f = nixio.File.open(path, rng.choice([nixio.FileMode.ReadWrite, nixio.FileMode.ReadOnly]))
-                for t2 in tracks:
-                    _check_container(t2, fails, history)
-                f.close()
-                f = nixio.File.open(path, nixio.FileMode.ReadWrite)
-                for t2 in tracks:
-                    t2._cached = None
-            _check_container(tr, fails, history)
-            _check_container(tr, fails, history, cached=True)
-            if len(fails) > 5:
-                break
-        for t2 in tracks:
-            _check_container(t2, fails, history)
-            _check_container(t2, fails, history, cached=True)
-    finally:
+        self.by = {t.label: t for t in self.tracks}
+        for lab, e in (("file.blocks", b), ("file.sections", s), ("section.sections", s2), ("block.sources", src),
+                       ("source.sources", src2), ("block.data_arrays", da0)):
+            self.by[lab].items.append((e.name, e.id))
+            self.all_ids[e.id] = e.name
+        self.protected = {"blk", "sec", "sub", "src", "deep", "pos"}
+
+    def _new_multi_tag(self, n):
+        """positions given as an array of the block, or as raw data: then create_multi_tag creates ordinary
+        arrays '<name>-positions' (and '<name>-extents') in the block first"""
+        blk = self.f.blocks["blk"]
+        arrays = self.by["block.data_arrays"]
+        taken = {x for x, _ in arrays.items}
+        mode = self.rng.randrange(3)
+        auto = [n + "-positions"] + ([n + "-extents"] if mode == 2 else [])
+        if mode == 0 or any(a in taken for a in auto):
+            return blk.create_multi_tag(n, "t", positions=blk.data_arrays["pos"])
+        before = len(blk.data_arrays)
         try:
-            f.close()
+            if mode == 1:
+                mt = blk.create_multi_tag(n, "t", positions=[1.0, 2.0])
+            else:
+                mt = blk.create_multi_tag(n, "t", positions=[1.0, 2.0], extents=[0.5, 0.5])
+        except Exception:
+            if len(blk.data_arrays) != before:
+                self.fails.append(Failure("refused create_multi_tag left auto-created arrays behind", self.history(),
+                                          len(blk.data_arrays), before, "block.data_arrays"))
+            raise
+        for a in auto:                       # they are ordinary members of block.data_arrays, created in this order
+            e = next((x for x in blk.data_arrays if x.name == a), None)
+            if e is None:
+                self.fails.append(Failure("auto-created array %r is not in block.data_arrays" % a, self.history(),
+                                          None, a, "block.data_arrays"))
+            else:
+                arrays.items.append((a, e.id))
+                if e.id in self.all_ids:
+                    self.fails.append(Failure("id already used in this file", self.history(), e.id, "fresh id",
+                                              "block.data_arrays"))
+                self.all_ids[e.id] = a
+        return mt
+
+    def history(self):
+        return list(self.log)
+
+    def kin(self, tr):
+        return [t for t in self.tracks if t.parent == tr.parent and t is not tr]
+
+    def pick_name(self, tr):
+        """names that collide with the SAME kind (must be refused) and with OTHER kinds of the same parent (must be
+        accepted) are drawn on purpose; the rest comes from the pool"""
+        r = self.rng.random()
+        own = [n for n, _ in tr.items]
+        others = sorted({n for t in self.kin(tr) for n, _ in t.items if n not in self.protected} - set(own))
+        if own and r < 0.2:
+            return self.rng.choice(own)
+        if others and r < 0.5:
+            return self.rng.choice(others)
+        return self.rng.choice(NAMES)
+
+    def create(self, tr, nm):
+        fails, history = self.fails, self.history
+        self.log.append(["create", tr.label, nm])
+        names = [n for n, _ in tr.items]
+        if nm in names:
+            before = [(e.name, e.id) for e in tr.getter()]
+            try:
+                tr.creator(nm)
+                fails.append(Failure("second entity under an existing name accepted", history(), "created",
+                                     "DuplicateName", tr.label))
+            except DuplicateName:
+                pass
+            except Exception as ex:
+                fails.append(Failure("duplicate name refused with %s" % type(ex).__name__, history(),
+                                     type(ex).__name__, "DuplicateName", tr.label))
+            after = [(e.name, e.id) for e in tr.getter()]
+            if before != after:
+                fails.append(Failure("refused duplicate create changed the container (the first entity must keep "
+                                     "its id)", history(), after, before, tr.label))
+        else:
+            try:
+                e = tr.creator(nm)
+                if e.name != nm:
+                    fails.append(Failure("created entity has another name", history(), e.name, nm, tr.label))
+                try:
+                    okid = str(uuid.UUID(e.id)) == e.id
+                except ValueError:
+                    okid = False
+                if not okid:
+                    fails.append(Failure("id is not a well-formed UUID", history(), e.id, "uuid", tr.label))
+                if e.id in self.all_ids:
+                    fails.append(Failure("id already used in this file", history(), e.id, "fresh id", tr.label))
+                self.all_ids[e.id] = nm
+                tr.items.append((nm, e.id))
+            except Exception as ex:
+                taken = sorted(t.label for t in self.kin(tr) if nm in [n for n, _ in t.items])
+                fails.append(Failure("legal name, free in this container%s, refused with %s: %s" % (
+                    " (taken only by another kind: %s)" % ", ".join(taken) if taken else "", type(ex).__name__, ex),
+                    history(), type(ex).__name__, "created", tr.label))
+        # the other kinds of the same parent are not affected by a create (accepted or refused) in this kind
+        for t in self.kin(tr):             # (auto-created position / extent arrays were booked by the creator)
+            got = [(e.name, e.id) for e in t.getter()]
+            if got != t.items:
+                fails.append(Failure("create in %s changed %s of the same parent" % (tr.label, t.label), history(),
+                                     got, list(t.items), t.label))
+
+    def delete(self, tr):
+        cand = [(n, i) for n, i in tr.items if n not in self.protected]
+        if not cand:
+            return
+        nm, i = self.rng.choice(cand)
+        how = self.rng.choice(["name", "id", "pos", "neg", "obj"])
+        pos = tr.items.index((nm, i))
+        self.log.append(["delete", tr.label, nm, how])
+        try:
+            cont = tr.getter()
+            if how == "name":
+                del cont[nm]
+            elif how == "id":
+                del cont[i]
+            elif how == "pos":
+                del cont[pos]
+            elif how == "neg":
+                del cont[pos - len(tr.items)]
+            else:
+                del cont[cont[pos]]
+            tr.items.remove((nm, i))
+        except Exception as ex:
+            self.fails.append(Failure("delete by %s refused with %s" % (how, type(ex).__name__), self.history(),
+                                      type(ex).__name__, "deleted", tr.label))
+        for t in self.kin(tr):
+            got = [(e.name, e.id) for e in t.getter()]
+            if got != t.items:
+                self.fails.append(Failure("delete in %s changed %s of the same parent (same name, other kind?)" % (
+                    tr.label, t.label), self.history(), got, list(t.items), t.label))
+
+    def reopen(self):
+        self.log.append(["reopen"])
+        self.f.close()
+        self.f = nixio.File.open(self.path, self.rng.choice([nixio.FileMode.ReadWrite, nixio.FileMode.ReadOnly]))
+        for t2 in self.tracks:
+            _check_container(t2, self.fails, self.history)
+        self.f.close()
+        self.f = nixio.File.open(self.path, nixio.FileMode.ReadWrite)
+        for t2 in self.tracks:
+            t2._cached = None
+
+    def check(self, tr):
+        _check_container(tr, self.fails, self.history)
+        _check_container(tr, self.fails, self.history, cached=True)
+
+    def close(self):
+        try:
+            self.f.close()
         except Exception:
             pass
         try:
-            os.remove(path)
+            os.remove(self.path)
         except OSError:
             pass
-    return fails, len(log)
+
+
+def _scenario(ctx, rng, steps, tag):
+    """create/delete in every container kind with an independent bookkeeping of the expected order"""
+    sc = Scene(ctx, rng, tag)
+    try:
+        for _ in range(steps):
+            tr = rng.choice(sc.tracks)
+            r = rng.random()
+            if r < 0.6 or not tr.items:
+                sc.create(tr, sc.pick_name(tr))
+            elif r < 0.9:
+                sc.delete(tr)
+            else:
+                sc.reopen()
+            sc.check(tr)
+            if len(sc.fails) > 5:
+                break
+        for t2 in sc.tracks:
+            sc.check(t2)
+    except Exception as ex:     # the scene itself must never raise: report it as a failure of the container access
+        sc.fails.append(Failure("scenario raised %s: %s" % (type(ex).__name__, ex), sc.history(), type(ex).__name__,
+                                "no exception", "scenario"))
+    finally:
+        sc.close()
+    return sc.fails, len(sc.log)
+
+
+def _kinds_scenario(ctx, rng, tag):
+    """names are unique per PARENT AND KIND: a few names go, in a random order of the kinds, into every kind of
+    container of each parent (each must be accepted, the kinds do not see each other), then a second time (each must
+    be refused with DuplicateName and the first entity keeps its id), then some are deleted in one kind (the others
+    stay) and created again (accepted, appended last)"""
+    sc = Scene(ctx, rng, "k" + tag)
+    try:
+        names = rng.sample(NAMES, 3)
+        for rnd in range(2):
+            for nm in names:
+                order = list(sc.tracks)
+                rng.shuffle(order)
+                for tr in order:
+                    sc.create(tr, nm)
+                    if len(sc.fails) > 5:
+                        return sc.fails, len(sc.log)
+            if rnd == 0 and rng.random() < 0.5:
+                sc.reopen()
+        for tr in sc.tracks:
+            sc.check(tr)
+        for tr in rng.sample(sc.tracks, 5):
+            sc.delete(tr)
+            sc.check(tr)
+        for nm in names:
+            for tr in rng.sample(sc.tracks, 5):
+                sc.create(tr, nm)
+        sc.reopen()
+        for tr in sc.tracks:
+            sc.check(tr)
+    except Exception as ex:
+        sc.fails.append(Failure("scenario raised %s: %s" % (type(ex).__name__, ex), sc.history(), type(ex).__name__,
+                                "no exception", "scenario"))
+    finally:
+        sc.close()
+    return sc.fails, len(sc.log)
 
 
 def _link_scenario(ctx, rng, steps, tag):
-    """link lists: order of appends, re-append moves to the end, unlink keeps the rest"""
+    """link lists: order of appends, re-append moves to the end, unlink keeps the rest; the targets of the different
+    lists of one owner share their names across kinds (array 'x', frame 'x', tag 'x' ...)"""
     path = ctx.tmpfile("c03-oracle-l%s.nix" % tag)
     f = nixio.File.open(path, nixio.FileMode.Overwrite)
     fails, log = [], []
     try:
         b = f.create_block("blk", "t")
-        g = b.create_group("g", "t")
-        t = b.create_tag("tg", "t", [0.0])
-        arrays = []
-        for nm in rng.sample(NAMES, 6):
-            arrays.append(b.create_data_array(nm, "t", data=[1.0]))
-        exp = {"group.data_arrays": [], "tag.references": []}
-        conts = {"group.data_arrays": lambda: f.blocks["blk"].groups["g"].data_arrays,
-                 "tag.references": lambda: f.blocks["blk"].tags["tg"].references}
+        b.create_group("g", "t")
+        b.create_tag("tg", "t", [0.0])
+        pos = b.create_data_array("mpos", "t", data=[1.0])
+        b.create_multi_tag("mt", "t", positions=pos)
+        names = rng.sample(NAMES, 5)
+        makers = {"data_arrays": lambda n: b.create_data_array(n, "t", data=[1.0]),
+                  "data_frames": lambda n: _new_frame(b, n, rng.randrange(3)),
+                  "tags": lambda n: b.create_tag(n, "t", [0.0]),
+                  "multi_tags": lambda n: b.create_multi_tag(n, "t", positions=pos),
+                  "sources": lambda n: b.create_source(n, "t")}
+        pool = {}
+        for kind, mk in makers.items():
+            pool[kind] = []
+            for nm in names:
+                log.append(["create", "block." + kind, nm])
+                e = mk(nm)
+                pool[kind].append((e.name, e.id))
+        blk = lambda: f.blocks["blk"]       # noqa: E731
+        conts = {"group.data_arrays": ("data_arrays", lambda: blk().groups["g"].data_arrays),
+                 "group.data_frames": ("data_frames", lambda: blk().groups["g"].data_frames),
+                 "group.tags": ("tags", lambda: blk().groups["g"].tags),
+                 "group.multi_tags": ("multi_tags", lambda: blk().groups["g"].multi_tags),
+                 "group.sources": ("sources", lambda: blk().groups["g"].sources),
+                 "tag.references": ("data_arrays", lambda: blk().tags["tg"].references),
+                 "multi_tag.references": ("data_arrays", lambda: blk().multi_tags["mt"].references),
+                 "data_array.sources": ("sources", lambda: blk().data_arrays["mpos"].sources),
+                 "tag.sources": ("sources", lambda: blk().tags["tg"].sources)}
+        exp = {k: [] for k in conts}
         for _ in range(steps):
-            label = rng.choice(list(exp))
-            a = rng.choice(arrays)
-            cont = conts[label]()
+            label = rng.choice(sorted(exp))
+            kind, getc = conts[label]
+            cont = getc()
+            nm, i = rng.choice(pool[kind])
             if rng.random() < 0.65:
-                log.append(["append", label, a.name])
-                cont.append(a)
-                exp[label] = [x for x in exp[label] if x != (a.name, a.id)] + [(a.name, a.id)]
+                log.append(["append", label, nm])
+                target = next(x for x in getattr(blk(), kind) if x.id == i)
+                try:
+                    cont.append(target)
+                    exp[label] = [x for x in exp[label] if x != (nm, i)] + [(nm, i)]
+                except Exception as ex:
+                    fails.append(Failure("append of an entity of the same block refused with %s" % type(ex).__name__,
+                                         list(log), type(ex).__name__, "appended", label))
             elif exp[label]:
                 nm, i = rng.choice(exp[label])
-                how = rng.choice(["name", "id", "pos", "obj"])
+                how = rng.choice(["name", "id", "pos", "neg", "obj"])
                 log.append(["unlink", label, nm, how])
-                pos = exp[label].index((nm, i))
+                pos_ = exp[label].index((nm, i))
                 try:
                     if how == "name":
                         del cont[nm]
                     elif how == "id":
                         del cont[i]
                     elif how == "pos":
-                        del cont[pos]
+                        del cont[pos_]
+                    elif how == "neg":
+                        del cont[pos_ - len(exp[label])]
                     else:
-                        del cont[cont[pos]]
+                        del cont[cont[pos_]]
                     exp[label].remove((nm, i))
                 except Exception as ex:
                     fails.append(Failure("unlink by %s refused with %s" % (how, type(ex).__name__), list(log),
                                          type(ex).__name__, "unlinked", label))
-            tr = Track(label, conts[label], None)
-            tr.items = exp[label]
-            _check_container(tr, fails, lambda: list(log))
-            if (a.name, a.id) not in [(x.name, x.id) for x in f.blocks["blk"].data_arrays]:
-                fails.append(Failure("unlinking deleted the array itself", list(log), "gone", "still in block", label))
+            for lab in ([label] if rng.random() < 0.7 else sorted(exp)):
+                tr = Track(lab, conts[lab][1], None)
+                tr.items = exp[lab]
+                _check_container(tr, fails, lambda: list(log))
+            got = [(x.name, x.id) for x in getattr(blk(), kind)]
+            if [x for x in got if x in pool[kind]] != pool[kind]:
+                fails.append(Failure("linking / unlinking changed the block's own %s" % kind, list(log), got, pool[kind],
+                                     label))
             if len(fails) > 5:
                 break
+    except Exception as ex:
+        fails.append(Failure("scenario raised %s: %s" % (type(ex).__name__, ex), list(log), type(ex).__name__,
+                             "no exception", "scenario"))
     finally:
         try:
             f.close()
@@ -420,7 +595,7 @@ def _name_is_sibling_id(ctx):
 
 
 def oracle(ctx, broken, hints):
-    n = ctx.budget(14, 100) * (4 if broken else 1)
+    n = ctx.budget(10, 100) * (4 if broken else 1)
     steps = ctx.budget(50, 90)
     failures = []
     evals = 0
@@ -432,6 +607,10 @@ def oracle(ctx, broken, hints):
         fs, e = _link_scenario(ctx, rng, steps // 2, str(k))
         failures += fs
         evals += e
+        if k % 2 == 0:
+            fs, e = _kinds_scenario(ctx, rng, str(k))
+            failures += fs
+            evals += e
         if len(failures) > 10:
             break
     kf = _name_is_sibling_id(ctx)
